@@ -19,8 +19,13 @@ M = {
     "not-dropped": ("pyrefact/core.py", "return not literal_value(node.operand)", "return literal_value(node.operand)"),
     "compare-any": ("pyrefact/core.py", "        return all(\n            constants.COMPARISON_OPERATORS[type(op)](literal_value(left)", "        return any(\n            constants.COMPARISON_OPERATORS[type(op)](literal_value(left)"),
     "compare-zip-shift": ("pyrefact/core.py", "[node.left] + node.comparators, node.ops, node.comparators", "[node.left] + node.comparators[:1] * len(node.ops), node.ops, node.comparators"),
-    "print-whitelisted": ("pyrefact/constants.py", '    "pow",\n    "range",', '    "pow",\n    "print",\n    "range",'),
-    "input-whitelisted": ("pyrefact/constants.py", '    "hex",\n    "int",', '    "hex",\n    "input",\n    "int",'),
+    "print-whitelisted": ("pyrefact/constants.py", 'PURE_BUILTIN_FUNCTIONS = frozenset({\n    "abs",', 'PURE_BUILTIN_FUNCTIONS = frozenset({\n    "print",\n    "abs",'),
+    "input-whitelisted": ("pyrefact/constants.py", 'PURE_BUILTIN_FUNCTIONS = frozenset({\n    "abs",', 'PURE_BUILTIN_FUNCTIONS = frozenset({\n    "input",\n    "abs",'),
+    "revert-F15-8-while-else": ("pyrefact/fixes.py", "        if isinstance(node, ast.While) and not value and not node.orelse:", "        if isinstance(node, ast.While) and not value:"),
+    "revert-F15-8-unreachable": ("pyrefact/fixes.py", "            if not node.orelse:\n                yield node, None, transaction", "            if True:\n                yield node, None, transaction"),
+    "comprehension-side-effect-guard-dropped": ("pyrefact/fixes.py", "                core.has_side_effect(comprehension.iter, constants.SAFE_CALLABLES)\n                for comprehension in node.generators", "                False\n                for comprehension in node.generators"),
+    "comprehension-genexp-tuple": ("pyrefact/fixes.py", '                yield (node, "(())")', '                yield (node, ast.Tuple(elts=[]))'),
+    "revert-F15-4-compare-outside": ("pyrefact/symbolic_math.py", "            value = core.literal_value(node)\n        except ValueError:", "            value = constants.COMPARISON_OPERATORS[type(operator)](core.literal_value(node.left), core.literal_value(comparator))\n        except ValueError:"),
     "gate-ignores-attributes": ("pyrefact/core.py", "            or not all(child.attr in safe_callable_whitelist for child in walk(node, ast.Attribute))", "            or False"),
     "dead-if-ifexp-swapped": ("pyrefact/fixes.py", "yield node, node.body if value else node.orelse", "yield node, node.orelse if value else node.body"),
     "dead-while-inverted": ("pyrefact/fixes.py", "        if isinstance(node, ast.While) and not value:\n            yield node, None", "        if isinstance(node, ast.While) and value:\n            yield node, None"),
